@@ -180,10 +180,18 @@ class Dictionary:
             and len(cache) > self._settings.CACHE_SIZE_LIMIT
         ):
             # evict the oldest entry, but never the one that was just requested
-            for key in cache:
+            for key in list(cache):
                 if key != self._settings.registry_key:
-                    del cache[key]
+                    cache.pop(key, None)
                     break
+        return value
+
+    def _get_from_cache(self, cache, build):
+        # another thread may evict the entry at any moment: never look it up twice
+        try:
+            return cache[self._settings.registry_key][self.info["name"]]
+        except KeyError:
+            return build()
 
     def _split_by_known_words(self, string: str, keep_formatting: bool):
         regex = self._get_split_regex_cache()
@@ -230,25 +238,18 @@ class Dictionary:
         )
 
     def _get_sorted_words_from_cache(self):
-        if (
-            self._settings.registry_key not in self._sorted_words_cache
-            or self.info["name"]
-            not in self._sorted_words_cache[self._settings.registry_key]
-        ):
-            self._add_to_cache(
+        return self._get_from_cache(
+            self._sorted_words_cache,
+            lambda: self._add_to_cache(
                 cache=self._sorted_words_cache,
                 value=sorted([key for key in self], key=len, reverse=True),
-            )
-        return self._sorted_words_cache[self._settings.registry_key][self.info["name"]]
+            ),
+        )
 
     def _get_split_regex_cache(self):
-        if (
-            self._settings.registry_key not in self._split_regex_cache
-            or self.info["name"]
-            not in self._split_regex_cache[self._settings.registry_key]
-        ):
-            self._construct_split_regex()
-        return self._split_regex_cache[self._settings.registry_key][self.info["name"]]
+        return self._get_from_cache(
+            self._split_regex_cache, self._construct_split_regex
+        )
 
     def _construct_split_regex(self):
         known_words_group = "|".join(
@@ -260,18 +261,15 @@ class Dictionary:
             regex = r"^(.*?(?:\A|\W|_|\d))({})((?:\Z|\W|_|\d).*)$".format(
                 known_words_group
             )
-        self._add_to_cache(
+        return self._add_to_cache(
             cache=self._split_regex_cache,
             value=re.compile(regex, re.UNICODE | re.IGNORECASE),
         )
 
     def _get_sorted_relative_strings_from_cache(self):
-        if (
-            self._settings.registry_key not in self._sorted_relative_strings_cache
-            or self.info["name"]
-            not in self._sorted_relative_strings_cache[self._settings.registry_key]
-        ):
-            self._add_to_cache(
+        return self._get_from_cache(
+            self._sorted_relative_strings_cache,
+            lambda: self._add_to_cache(
                 cache=self._sorted_relative_strings_cache,
                 value=sorted(
                     [
@@ -281,21 +279,13 @@ class Dictionary:
                     key=len,
                     reverse=True,
                 ),
-            )
-        return self._sorted_relative_strings_cache[self._settings.registry_key][
-            self.info["name"]
-        ]
+            ),
+        )
 
     def _get_split_relative_regex_cache(self):
-        if (
-            self._settings.registry_key not in self._split_relative_regex_cache
-            or self.info["name"]
-            not in self._split_relative_regex_cache[self._settings.registry_key]
-        ):
-            self._construct_split_relative_regex()
-        return self._split_relative_regex_cache[self._settings.registry_key][
-            self.info["name"]
-        ]
+        return self._get_from_cache(
+            self._split_relative_regex_cache, self._construct_split_relative_regex
+        )
 
     def _construct_split_relative_regex(self):
         known_relative_strings_group = "|".join(
@@ -307,28 +297,22 @@ class Dictionary:
             regex = "(?<=(?:\\A|\\W|_))({})(?=(?:\\Z|\\W|_))".format(
                 known_relative_strings_group
             )
-        self._add_to_cache(
+        return self._add_to_cache(
             cache=self._split_relative_regex_cache,
             value=re.compile(regex, re.UNICODE | re.IGNORECASE),
         )
 
     def _get_match_relative_regex_cache(self):
-        if (
-            self._settings.registry_key not in self._match_relative_regex_cache
-            or self.info["name"]
-            not in self._match_relative_regex_cache[self._settings.registry_key]
-        ):
-            self._construct_match_relative_regex()
-        return self._match_relative_regex_cache[self._settings.registry_key][
-            self.info["name"]
-        ]
+        return self._get_from_cache(
+            self._match_relative_regex_cache, self._construct_match_relative_regex
+        )
 
     def _construct_match_relative_regex(self):
         known_relative_strings_group = "|".join(
             self._get_sorted_relative_strings_from_cache()
         )
         regex = "^({})$".format(known_relative_strings_group)
-        self._add_to_cache(
+        return self._add_to_cache(
             cache=self._match_relative_regex_cache,
             value=re.compile(regex, re.UNICODE | re.IGNORECASE),
         )
